@@ -16,6 +16,7 @@ import (
 	"path/filepath"
 	"sort"
 	"strconv"
+	"strings"
 	"testing"
 	"time"
 
@@ -185,7 +186,19 @@ func (w *fsWorld) sched(h schedHooks) string {
 				more = false
 			}
 		}
-		parked := w.k.Parked()
+		var parked []*simkit.Ticket
+		for _, t := range w.k.Parked() {
+			// a goroutine waiting for a mutex is offered only after some unlock happened since
+			// its last failed attempt
+			if strings.HasPrefix(t.Key, "lock:") {
+				if i := strings.LastIndexByte(t.Key, '@'); i >= 0 {
+					if ep, err := strconv.Atoi(t.Key[i+1:]); err == nil && ep >= w.sfs.UnlockEpoch() {
+						continue
+					}
+				}
+			}
+			parked = append(parked, t)
+		}
 		canStart := pend != nil && w.k.Live() < h.maxConc
 		if len(parked) == 0 && !canStart {
 			if w.k.Live() == 0 {
@@ -222,7 +235,13 @@ func (w *fsWorld) sched(h schedHooks) string {
 			d := []time.Duration{time.Millisecond, 10 * time.Millisecond, 25 * time.Millisecond}[w.ch.Intn(3)]
 			w.k.Sleep(d)
 		default:
+			if strings.HasPrefix(parked[c].Key, "lock:") {
+				w.r.Logf("  retry %s", parked[c].Key)
+				w.k.Grant(parked[c], 0)
+				continue
+			}
 			idx++
+			w.r.Logf("  grant#%d %s (of %d parked, %d live)", idx, parked[c].Key, len(parked), w.k.Live())
 			if h.boundary != nil {
 				h.boundary(idx)
 			}
